@@ -4,12 +4,22 @@ package checks
 
 import (
 	"context"
+	"encoding/json"
 	"errors"
 	"fmt"
+	"net"
 	"strings"
+	"sync"
 	"testing"
 	"time"
 
+	"google.golang.org/grpc"
+	"google.golang.org/grpc/credentials/insecure"
+	"google.golang.org/grpc/test/bufconn"
+
+	"github.com/projecteru2/core/rpc"
+	pb "github.com/projecteru2/core/rpc/gen"
+	resourcetypes "github.com/projecteru2/core/resource/types"
 	"github.com/projecteru2/core/types"
 
 	"verifharness/sim"
@@ -25,6 +35,11 @@ type lambdaCase struct {
 	ExitCode int64         `json:"exit_code"`
 	Lines    int           `json:"lines"`
 	FailOne  bool          `json:"fail_one_create,omitempty"` // one instance's engine create fails
+	// ViaRPC: the request goes through the real rpc.Vibranium handler over an in-process gRPC connection (the handler
+	// is the only reader of the channel all workloads of the request write to)
+	ViaRPC bool `json:"via_rpc,omitempty"`
+	// Mixed: only the first container's log fetch fails (script logs-error), its siblings run the ok script
+	Mixed bool `json:"only_first_container_fails,omitempty"`
 	Messages []string      `json:"messages,omitempty"`
 }
 
@@ -35,6 +50,19 @@ func TestC30(t *testing.T) {
 	w := newWorld(t, env, rec, false)
 	ctx := context.Background()
 	r := env.Rand("c30")
+
+	lis := bufconn.Listen(4 << 20)
+	stopRPC := make(chan struct{})
+	srv := grpc.NewServer()
+	pb.RegisterCoreRPCServer(srv, rpc.New(w.cl.C, w.cl.Cfg, stopRPC))
+	go func() { _ = srv.Serve(lis) }()
+	defer srv.Stop()
+	conn, err := grpc.Dial("bufnet", grpc.WithContextDialer(func(context.Context, string) (net.Conn, error) { return lis.Dial() }), grpc.WithTransportCredentials(insecure.NewCredentials()))
+	if err != nil {
+		t.Fatal(err)
+	}
+	defer conn.Close()
+	cli := pb.NewCoreRPCClient(conn)
 
 	run := func(lc *lambdaCase) {
 		if err := w.rebuild(lc.Topology, nil); err != nil {
@@ -57,8 +85,41 @@ func TestC30(t *testing.T) {
 		case "attach-error":
 			script.AttachErr = errors.New("memengine: attach failed")
 		}
+		okScript := script
+		okScript.LogsErr, okScript.WaitErr, okScript.AttachErr = nil, nil, nil
+		var kmu sync.Mutex
+		kindOf := map[string]string{} // container id -> script it runs
 		for _, n := range lc.Topology.Nodes {
-			sim.GetHost(sim.Prefix + n.Name).SetLambdaScript(func(*sim.Container) sim.LambdaScript { return script })
+			sim.GetHost(sim.Prefix + n.Name).SetLambdaScript(func(c *sim.Container) sim.LambdaScript {
+				if !lc.Mixed {
+					return script
+				}
+				kmu.Lock()
+				defer kmu.Unlock()
+				k, seen := kindOf[c.ID]
+				if !seen {
+					k = "ok"
+					if len(kindOf) == 0 {
+						k = lc.Script
+					}
+					kindOf[c.ID] = k
+				}
+				if k == "ok" {
+					return okScript
+				}
+				return script
+			})
+		}
+		scriptOf := func(id string) string {
+			if !lc.Mixed {
+				return lc.Script
+			}
+			kmu.Lock()
+			defer kmu.Unlock()
+			if k, ok := kindOf[id]; ok {
+				return k
+			}
+			return "ok"
 		}
 		var plan *sim.FaultPlan
 		if lc.FailOne {
@@ -74,10 +135,58 @@ func TestC30(t *testing.T) {
 			inCh = make(chan []byte)
 			close(inCh)
 		}
-		ids, ch, err := w.cl.C.RunAndWait(w.cl.Ctx("lambda"), opts, inCh)
+		var ids []string
+		var ch <-chan *types.AttachWorkloadMessage
+		var err error
+		if lc.ViaRPC {
+			// the same request through the RPC handler; the client side turns the stream back into a channel
+			st, e := cli.RunAndWait(w.cl.Ctx("lambda"))
+			if e == nil {
+				e = st.Send(&pb.RunAndWaitOptions{DeployOptions: &pb.DeployOptions{Name: opts.Name, Entrypoint: &pb.EntrypointOptions{Name: opts.Entrypoint.Name}, Podname: opts.Podname, Image: opts.Image,
+					Count: int32(opts.Count), DeployStrategy: pb.DeployOptions_AUTO, OpenStdin: opts.OpenStdin, Resources: rawResources(opts.Resources), NodeFilter: &pb.NodeFilter{}}})
+			}
+			if e == nil {
+				e = st.CloseSend()
+			}
+			err = e
+			if e == nil {
+				out := make(chan *types.AttachWorkloadMessage)
+				ch = out
+				first := make(chan error, 1)
+				go func() {
+					defer close(out)
+					got := false
+					for {
+						m, e := st.Recv()
+						if e != nil {
+							if !got {
+								first <- e
+							}
+							return
+						}
+						if !got {
+							got = true
+							first <- nil
+						}
+						if m.StdStreamType == pb.StdStreamType_TYPEWORKLOADID {
+							kmu.Lock()
+							ids = append(ids, m.WorkloadId)
+							kmu.Unlock()
+							continue
+						}
+						out <- &types.AttachWorkloadMessage{WorkloadID: m.WorkloadId, Data: m.Data, StdStreamType: types.StdStreamType(m.StdStreamType)}
+					}
+				}()
+				if fe := <-first; fe != nil {
+					err = fe // the request was refused before anything was started
+				}
+			}
+		} else {
+			ids, ch, err = w.cl.C.RunAndWait(w.cl.Ctx("lambda"), opts, inCh)
+		}
 		viol := func(effect, what string) {
 			lc.Messages = append(lc.Messages, eventsBrief(w.b.EventsSince(seq0))...)
-			rec.Violation("run-and-wait/"+lc.Script+"/"+effect, fmt.Sprintf("%s — count=%d stdin=%v script=%s exit=%d", what, lc.Count, lc.Stdin, lc.Script, lc.ExitCode), lc)
+			rec.Violation("run-and-wait/"+lc.Script+"/"+effect, fmt.Sprintf("%s — count=%d stdin=%v script=%s exit=%d via-rpc=%v only-first-fails=%v", what, lc.Count, lc.Stdin, lc.Script, lc.ExitCode, lc.ViaRPC, lc.Mixed), lc)
 		}
 		if err != nil {
 			w.b.Disarm()
@@ -86,6 +195,12 @@ func TestC30(t *testing.T) {
 		}
 		rec.Count("requests", 1)
 		rec.Count("script/"+lc.Script, 1)
+		if lc.ViaRPC {
+			rec.Count("requests_via_rpc", 1)
+		}
+		if lc.Mixed {
+			rec.Count("requests_where_only_the_first_container_fails", 1)
+		}
 		last := map[string]string{}
 		lastType := map[string]types.StdStreamType{}
 		n := 0
@@ -117,6 +232,9 @@ func TestC30(t *testing.T) {
 		}
 		rec.Count("messages", n)
 		started := 0
+		kmu.Lock()
+		ids = append([]string(nil), ids...)
+		kmu.Unlock()
 		for _, id := range ids {
 			if id != "" {
 				started++
@@ -147,7 +265,7 @@ func TestC30(t *testing.T) {
 				viol("no-message-for-workload", fmt.Sprintf("workload %.8s produced no message at all", id))
 				return
 			}
-			if lc.Script == "ok" {
+			if scriptOf(id) == "ok" {
 				want := fmt.Sprintf("[exitcode] %d", lc.ExitCode)
 				if l != want {
 					viol("exit-code-not-last", fmt.Sprintf("last message of workload %.8s is %q, want %q", id, l, want))
@@ -200,6 +318,23 @@ func TestC30(t *testing.T) {
 			}
 		}
 		lc.FailOne = lc.Count >= 2 && r.Intn(4) == 0
+		lc.ViaRPC = !lc.Stdin && i%3 == 1
+		if lc.Count >= 2 && !lc.Stdin && i%2 == 0 && (lc.Script == "logs-error" || lc.Script == "wait-error") {
+			lc.Mixed = true
+			if lc.Lines < 2 {
+				lc.Lines = 2
+			}
+		}
 		run(lc)
 	}
+}
+
+
+func rawResources(r resourcetypes.Resources) map[string][]byte {
+	out := map[string][]byte{}
+	for k, v := range r {
+		b, _ := json.Marshal(v)
+		out[k] = b
+	}
+	return out
 }
